@@ -385,15 +385,11 @@ func coqObs(o obsJSON, hostname string) string {
 	dials := append([]string(nil), o.Dials...)
 	recv := "None"
 	if len(o.Recv) > 0 {
-		recv = fmt.Sprintf("(Some (%s, wr %d))", coqfmt.Bool(o.Recv[0].TLS), o.Recv[0].Wire)
-		// every connection must have been accepted by the party it was dialled as, and only one party may be contacted
-		for _, ev := range o.Recv {
-			if len(dials) == 0 || ev.Party != dials[0] {
-				dials = append(dials, "!received-by "+ev.Party)
+		recv = fmt.Sprintf("(Some (%s, %s, wr %d))", cs(o.Recv[0].Party), coqfmt.Bool(o.Recv[0].TLS), o.Recv[0].Wire)
+		if len(o.Recv) > 1 { // more than one connection carried data: not a single recipient
+			for _, ev := range o.Recv[1:] {
+				dials = append(dials, "!also-received-by "+ev.Party)
 			}
-		}
-		if len(o.Recv) > 1 {
-			dials = append(dials, fmt.Sprintf("!%d connections carried data", len(o.Recv)))
 		}
 	}
 	if !consistent(hostname, o.Pac, o.Match) {
@@ -426,8 +422,12 @@ func eCase(r *rig, j *eJSON) string {
 		j.Mitm = &o
 		mitm = fmt.Sprintf("(Some (tgt 0 %s %s, %s))", cs("https"), cs(connHost), coqObs(o, hostname))
 	}
-	return fmt.Sprintf("{| ec_cfg := %s; ec_rules := %s; ec_plain := %s; ec_connect := %s; ec_tls := %s; ec_mitm := %s |}",
-		coqCfgd(r.desc, pacRes, directRes, isLH), coqRules(r.rules), plain, conn, tlsS, mitm)
+	att := r.desc.Attempts
+	if att < 0 {
+		att = 0 // the model's attempts is a nat; <= 0 means one attempt in both
+	}
+	return fmt.Sprintf("{| ec_cfg := %s; ec_rules := %s; ec_attempts := %d%%nat; ec_failures := %d%%nat; ec_plain := %s; ec_connect := %s; ec_tls := %s; ec_mitm := %s |}",
+		coqCfgd(r.desc, pacRes, directRes, isLH), coqRules(r.rules), att, r.desc.FailFirst, plain, conn, tlsS, mitm)
 }
 
 // ---------------------------------------------------------------- shards
@@ -498,7 +498,7 @@ func main() {
 	thorough := *tier == "thorough"
 
 	// ---- D0
-	splitLen := 5
+	splitLen := 4
 	if thorough {
 		splitLen = 6
 	}
@@ -689,8 +689,12 @@ func runConfigs(r *rng.R, nF, nE int, ss *shardSet, m *meta) {
 		{PAC: &pacDesc{Table: map[string]string{}, Default: "SOCKS pb.test:8443"}, Mode: "allow", MITM: true},
 		{Upstream: "http://pa.test:3128", Mode: "direct", MITM: true, Direct: []string{`other\.test`}},
 	}
-	for _, d := range corpus {
+	for i, d := range corpus {
 		d := d
+		d.Attempts = 1 + i%3
+		if i%4 == 3 {
+			d.FailFirst = 1
+		}
 		jb := job{idx: len(jobs), desc: d}
 		for _, h := range []string{"origin.test", "other.test", "localhost"} {
 			jb.e = append(jb.e, eJSON{Kind: "e2e", Cfg: d, Host: h, Port: "80", PlainHost: h})
@@ -711,6 +715,10 @@ func runConfigs(r *rng.R, nF, nE int, ss *shardSet, m *meta) {
 		hosts := append([]string{}, "origin.test", "other.test", "pa.test", "pb.test", "localhost")
 		d.Rules = genRulesFor(r, hosts, []string{"80", "8080", "443", "3128", "8443"})
 		d.MITM = r.Chance(1, 5)
+		d.Attempts = r.Intn(4) // 0 (= 1), 1, 2, 3
+		if r.Chance(1, 3) {
+			d.FailFirst = 1 + r.Intn(3)
+		}
 		_, es := genTargets(r, &d, true)
 		for i := range es {
 			es[i].Cfg = d
@@ -787,6 +795,9 @@ func runConfigs(r *rng.R, nF, nE int, ss *shardSet, m *meta) {
 		}
 		if len(e.Cfg.Rules) > 0 {
 			m.Dist["e2e_with_connect_to"]++
+		}
+		if e.Cfg.FailFirst > 0 {
+			m.Dist["e2e_with_dial_failures"]++
 		}
 	}
 	m.Counts["fcases"] = ss.write("fcases", "fcase", "fcase_model_ok", "fcase_prop_ok", fc, fj)
